@@ -23,7 +23,7 @@ def gen_cases(rng, tier):
             b = a[:j] + ('1' if a[j] == '0' else '0') + a[j + 1:]
         elif r < 0.9: b = a + rng.choice(['0', '1', '00000000'])
         else: b = rand_bits(rng, rand_len(rng, tier))
-        other = rng.choice(CLASSES + CLASSES + ['str', 'list', 'bitarray', 'bytes', 'int', 'float', 'none', 'object', 'dict'])
+        other = rng.choice(CLASSES + CLASSES + ['str', 'list', 'bitarray', 'bytes', 'int', 'float', 'none', 'object', 'dict'] + ITERATOR_KINDS)
         if other == 'bytes': b = b[:len(b) - len(b) % 8]
         yield {'op': 'pair', 'ca': rng.choice(CLASSES), 'a': a, 'ra': rng.choice(ROUTES), 'pa': rng.choice([None, 0, n // 2, n]),
                'other': other, 'b': b, 'rb': rng.choice(ROUTES), 'pb': rng.choice([None, 0])}
@@ -46,7 +46,7 @@ def kind(c): return c['op']
 def mk_other(c):
     k = c['other']
     if k in CLASSES: return build(k, c['b'], c['rb'], c['pb'])
-    if k in ('str', 'list', 'bitarray', 'bytes'): return promotable(c['b'], k)
+    if k in ('str', 'list', 'bitarray', 'bytes') or k in ITERATOR_KINDS: return promotable(c['b'], k)
     return {'int': 5, 'float': 1.5, 'none': None, 'object': object(), 'dict': {1: 2}}[k]
 
 def run_impl(c):
@@ -64,7 +64,7 @@ def run_impl(c):
     def f():
         x = build(c['ca'], c['a'], c['ra'], c['pa'])
         y = mk_other(c)
-        out = {'eq': x == y, 'ne': x != y}
+        out = {'eq': x == y, 'ne': x != (mk_other(c) if c['other'] in ITERATOR_KINDS else y)}      # a one-shot iterator serves one comparison
         if c['other'] in CLASSES:
             out['req'] = (y == x)
         bitstring.bits.hash = spy
@@ -78,6 +78,11 @@ def run_impl(c):
                         out[name] = 'unhashable'
         finally:
             del bitstring.bits.hash
+        # the hash of an (immutable) object does not depend on the bit numbering in force when it is taken
+        if out.get('hx') not in (None, 'unhashable'):
+            bitstring.options.lsb0 = True
+            try: out['hx_lsb0'] = hash(x); out['eq_lsb0'] = (x == y) if not (c['other'] in ITERATOR_KINDS) else None
+            finally: bitstring.options.lsb0 = False
         if out.get('hx') not in (None, 'unhashable') and out.get('hy') not in (None, 'unhashable'):
             out['in_set'] = y in {x}
             out['dict'] = {x: 1}.get(y)
@@ -91,13 +96,15 @@ def oracle(c, obs):
         exp = [True, s, s, True, True, False]
         return None if obs[1] == exp else f"triple {c['cs']} same={s}: got {obs[1]}, expected {exp}"
     o = obs[1]
-    promot = c['other'] in CLASSES + ['str', 'list', 'bitarray', 'bytes']
+    promot = c['other'] in CLASSES + ['str', 'list', 'bitarray', 'bytes'] + ITERATOR_KINDS
     eq = promot and c['a'] == c['b']
     if c['other'] == 'dict':  # a dict is an iterable (of its keys): promotable
         return None
     where = f"{c['ca']}({len(c['a'])} bits, route {c['ra']}, pos {c['pa']}) vs {c['other']}({len(c['b'])} bits, route {c['rb']})"
     if o['eq'] != eq or o['ne'] != (not eq): return f"{where}: == gave {o['eq']}, != gave {o['ne']}; contents equal: {eq}"
     if 'req' in o and o['req'] != eq: return f"{where}: reflected == gave {o['req']}"
+    if 'hx_lsb0' in o and o['hx_lsb0'] != o['hx']: return f"{where}: hash() of the same object is {o['hx']} under msb0 and {o['hx_lsb0']} under lsb0"
+    if o.get('eq_lsb0') is not None and o['eq_lsb0'] != eq: return f"{where}: == gave {o['eq_lsb0']} under lsb0"
     mut = lambda k: k in MUTABLE
     if mut(c['ca']) != (o.get('hx') == 'unhashable'): return f"{where}: hashability of {c['ca']} wrong: {o.get('hx')}"
     if c['other'] in CLASSES and mut(c['other']) != (o.get('hy') == 'unhashable'): return f"{where}: hashability of {c['other']} wrong"
